@@ -62,14 +62,6 @@ pub trait Read {
             };
 }
 
-// TRUSTED: (A-io) std's `impl<R: Read> Read for &mut R` forwards to the referenced reader
-impl<R: Read> Read for &mut R {
-    open spec fn rem(&self) -> Seq<u8> { (**self).rem() }
-    open spec fn io_failed(&self) -> bool { (**self).io_failed() }
-    fn read(&mut self, buf: &mut [u8]) -> (r: Result<usize, std::io::Error>) { (**self).read(buf) }
-    fn read_exact(&mut self, buf: &mut [u8]) -> (r: Result<(), std::io::Error>) { (**self).read_exact(buf) }
-}
-
 // ---------------------------------------------------------------- [MS-CFB] specification (independent of the code)
 /// sector `id` of the sector space `data` (the bytes after the header) with sectors of `size` bytes
 pub open spec fn sector(data: Seq<u8>, size: int, id: int) -> Seq<u8> {
@@ -382,6 +374,12 @@ pub open spec fn hdr_valid(h: Seq<u8>) -> bool {
     h.len() >= 512 && hdr_signature_ok(h) && (hdr_sector_shift(h) == 9 || hdr_sector_shift(h) == 12) && hdr_mini_sector_shift(h) == 6
 }
 
+proof fn lemma_u32_at_bound(h: Seq<u8>, off: int)
+    requires 0 <= off, off + 4 <= h.len(),
+    ensures 0 <= u32_at(h, off) <= 0xFFFF_FFFF,
+{
+    reveal(u32_at);
+}
 proof fn lemma_signature(h: Seq<u8>)
     requires h.len() >= 8,
     ensures hdr_signature_ok(h) <==> le64(h.subrange(0, 8)) == 0xE11A_B1A1_E011_CFD0,
@@ -871,6 +869,43 @@ pub broadcast proof fn lemma_selk_fat_ids(s: Seq<u32>, k: Seq<bool>)
     }
 }
 
+// ---- verified helper wrappers (NOT from /repo): targets of the two ad-hoc rewrites in Cfb::new.
+// Verus/vstd limitation (probed): every vstd fact about `Filter<_, P>` / `Map<_, F>` is a broadcast axiom bounded by `P: FnMut(..)`;
+// such axioms are not instantiated for a closure that is *created inside a generic function* (`Cfb::new<R: Read>`), so neither a
+// `for` loop over `.filter(closure)` nor `.map(closure).collect()` can be reasoned about in place. The iterator expression is moved
+// verbatim (closure included, via capture groups) into these wrappers, which are generic in the closure *type parameter* and are verified.
+pub open spec fn kept_ok<P: FnMut(&u32) -> bool>(v: Seq<u32>, p: P, kept: Seq<bool>) -> bool {
+    kept.len() == v.len() && forall|i: int| 0 <= i < v.len() ==> (if #[trigger] kept[i] { call_ensures(p, (&v[i],), true) } else { call_ensures(p, (&v[i],), false) })
+}
+/// `v.into_iter().filter(p)` materialised: the items for which `p` answered true, in order
+fn verif_filter_collect<P: FnMut(&u32) -> bool>(v: Vec<u32>, p: P) -> (r: Vec<u32>)
+    requires forall|x: &u32| call_requires(p, (x,)),
+    ensures exists|kept: Seq<bool>| #[trigger] kept_ok(v@, p, kept) && r@ == selk(v@, kept),
+{
+    let dit = v.into_iter();
+    let fit = dit.filter(p);
+    proof { axiom_filter_remaining(dit, p, fit); assert(kept_ok(v@, p, filter_kept(fit))); }
+    fit.collect()
+}
+pub open spec fn is_chunk(s: Seq<u8>, n: int, c: Seq<u8>) -> bool {
+    exists|i: int| 0 <= i < chunk_seq(s, n).len() && c == #[trigger] chunk_seq(s, n)[i]
+}
+/// `out` is a possible result of `f` on a slice with content `cs`
+pub open spec fn chunk_result<T, F: FnMut(&[u8]) -> T>(f: F, cs: Seq<u8>, out: T) -> bool {
+    exists|c: &[u8]| c@ == cs && #[trigger] call_ensures(f, (c,), out)
+}
+/// `s.chunks(n).map(f).collect()`: one result per chunk, in order
+fn verif_chunks_map_collect<T, F: FnMut(&[u8]) -> T>(s: &[u8], n: usize, f: F) -> (r: Vec<T>)
+    requires
+        n != 0,
+        forall|c: &[u8]| is_chunk(s@, n as int, c@) ==> #[trigger] call_requires(f, (c,)),
+    ensures
+        r@.len() == chunk_seq(s@, n as int).len(),
+        forall|i: int| 0 <= i < r@.len() ==> chunk_result(f, chunk_seq(s@, n as int)[i], #[trigger] r@[i]),
+{
+    s.chunks(n).map(f).collect()
+}
+
 #[verifier::loop_isolation(false)]
 //@@ impl src/cfb.rs Cfb
 //@@ fn src/cfb.rs Cfb::has_directory props=C13,C20 ret=b
@@ -969,7 +1004,7 @@ pub broadcast proof fn lemma_selk_fat_ids(s: Seq<u32>, k: Seq<bool>)
             Err(e) => e is Io && (*final(reader)).io_failed(),
         }),
 //@@ body
-        broadcast use axiom_iter_items, axiom_filter_remaining, lemma_selk_fat_ids;
+        broadcast use axiom_iter_items, lemma_selk_fat_ids;
         let ghost inp = (*reader).rem();
         let ghost io0 = (*reader).io_failed();
         // the container is well formed ([MS-CFB], `cfb_parse`) for some fuel f0: hypothesis of the functional clause
@@ -985,7 +1020,11 @@ pub broadcast proof fn lemma_selk_fat_ids(s: Seq<u32>, k: Seq<bool>)
         let ghost fat = fat_of(data, size, ids);
         let ghost pp = cfb_parse(inp, f0).unwrap();
         let ghost mut fl: nat = f0;
-        proof { assert(size == 512 || size == 4096); }
+        proof {
+            assert(size == 512 || size == 4096);
+            lemma_u32_at_bound(inp, 40);
+            lemma_u32_at_bound(inp, 64);
+        }
 //@@ after /let mut sectors = [^;]*;/
         proof { assert(sectors.total(reader) =~= data); }
 //@@ loop 0
@@ -1029,7 +1068,7 @@ pub broadcast proof fn lemma_selk_fat_ids(s: Seq<u32>, k: Seq<bool>)
         }
         //# C06.alloc_bound_fat_capacity
         assert(alloc_le(h.fat_len as int, inp.len() as int)) by { reveal(alloc_le); }
-//@@ loop 1 it
+//@@ loop 1
             invariant
                 sectors.wf(), sectors.sz() == size,
                 (*reader).io_failed() == io0,
@@ -1113,14 +1152,12 @@ pub broadcast proof fn lemma_selk_fat_ids(s: Seq<u32>, k: Seq<bool>)
                 }
             }
         }
-//@@ replace /\|id\| / closure parameter and result annotated so that its (verified) postcondition is visible to `filter`; body unchanged
-|id: &u32| -> (b: bool) ensures b == (*id < DIFSECT) { 
-//@@ after /\|id\| [^)]*/
- }
-//@@ replace /\|c\| / closure parameter and result annotated with the contract of Directory::from_slice; body unchanged
-|c: &[u8]| -> (d: Directory) requires c@.len() >= 128 ensures d.ent() == dir_ent(c@.subrange(0, 128), h.sector_size as int) { 
-//@@ after /\|c\| [^)]*\)/
- }
+//@@ replace /Header::from_reader\(&mut reader\)/ `&mut reader` is a `&mut &mut R` read through std's forwarding `impl Read for &mut R`; Verus cannot relate the final value of the nested reference to the parameter's, so the reader is reborrowed instead (same calls reach the same R)
+Header::from_reader(reader)
+//@@ replace /for id in difat\.into_iter\(\)\.filter\(\|id\| ([^)]*)\)/ vstd cannot reason about Filter over a closure created in a generic fn; the iterator is materialised by the verified wrapper (same items, same order; predicate pure); closure text verbatim, annotated
+for id in it: verif_filter_collect(difat, |id: &u32| -> (b: bool) ensures b == (\g<1>) { \g<1> })
+//@@ replace /dirs\s*\.chunks\(128\)\s*\.map\(\|c\| ([^;]*)\)\s*\.collect::<Vec<_>>\(\)/ vstd cannot reason about Map over a closure created in a generic fn; expression moved into the verified wrapper; closure text verbatim, annotated with the contract of Directory::from_slice
+verif_chunks_map_collect(&dirs, 128, |c: &[u8]| -> (d: Directory) requires c@.len() >= 128 ensures d.ent() == dir_ent(c@.subrange(0, 128), h.sector_size as int) { \g<1> })
 //@@ end
 //@@ endimpl
 
